@@ -130,11 +130,50 @@ def shared_original(rng, prog):
     prog["frames"][h2]["auxes"].append(a)
     prog["frames"][h1]["precur"].insert(0, {"k": "go", "far": h2, "needs": [need("recurred", False, op=">=", goal=rng.randint(1, 3))], "transit": []})
     prog["frames"][h2]["precur"].insert(0, {"k": "go", "far": h1, "needs": [need("recurred", False, op=">=", goal=rng.randint(1, 3))], "transit": []})
-    if rng.random() < 0.5:
-        # a third frame elsewhere that also wants it while h1 or h2 may still own it (must be refused then)
+    if rng.random() < 0.6:
+        # a third frame below h1 that also wants it: entering h1 > h3 together must be refused (also when the
+        # auxiliary is at that moment owned by the frame being exited), entering h3 alone from h1 as well
         h3 = _new_frame(prog, f, over=h1)
         prog["frames"][h3]["auxes"].append(a)
-    prog["framers"][f]["first"] = h1
+        prog["frames"][h2]["precur"].insert(0, {"k": "go", "far": h3, "needs": [need("recurred", False, op=">=", goal=rng.randint(1, 2))], "transit": []})
+        if rng.random() < 0.5:
+            prog["frames"][h1]["under"] = h3
+    prog["framers"][f]["first"] = rng.choice((h1, h2))
+    return True
+
+
+def ready_then_start(rng, prog):
+    """a slave (or an inactive framer) with a first-frame condition on an input is readied while the condition holds and
+    started later, after the environment may have flipped the condition (the start must re-check)"""
+    slaves = auxes_of_kind(prog, "slave")
+    mains = list(prog["order"])
+    if not mains:
+        return False
+    boss = rng.choice(mains)
+    prog["framers"][boss]["sched"] = "active"
+    if slaves and rng.random() < 0.7:
+        tgt = rng.choice(slaves)
+        mk = lambda ctl: {"k": "fiat", "ctl": ctl, "who": tgt}
+    else:
+        others = [m for m in mains if m != boss]
+        if not others:
+            return False
+        tgt = rng.choice(others)
+        prog["framers"][tgt]["sched"] = "inactive"
+        mk = lambda ctl: {"k": "bid", "ctl": ctl, "who": [tgt], "period": -1}
+    first = prog["framers"][tgt]["first"]
+    inp = rng.choice(_int_inputs(prog))
+    prog["frames"][first]["benter"] = [need("cmp", False, share=inp, op="==", goal=0)]
+    k1 = _new_frame(prog, boss)
+    k2 = _new_frame(prog, boss)
+    k3 = _new_frame(prog, boss)
+    prog["frames"][k1]["enter"].append(mk("ready"))
+    prog["frames"][k1]["precur"].append({"k": "go", "far": k2, "needs": [need("recurred", False, op=">=", goal=rng.randint(1, 3))], "transit": []})
+    prog["frames"][k2]["enter"].append(mk("start"))
+    prog["frames"][k2]["precur"].append({"k": "go", "far": k3, "needs": [need("recurred", False, op=">=", goal=rng.randint(1, 2))], "transit": []})
+    prog["frames"][k3]["enter"].append(mk(rng.choice(("stop", "start", "run"))))
+    prog["frames"][k3]["precur"].append({"k": "go", "far": k1, "needs": [need("recurred", False, op=">=", goal=2)], "transit": []})
+    prog["framers"][boss]["first"] = k1
     return True
 
 
@@ -209,11 +248,11 @@ def exit_bids(rng, prog):
 
 SHAPES = {
     "C03": (exit_bids, deepen, branchy_condaux),
-    "C04": (exit_bids, exit_bids),
+    "C04": (exit_bids, ready_then_start, ready_then_start),
     "C05": (deepen, branchy_condaux, exit_bids),
     "C06": (deepen, branchy_condaux, shared_original, later_done),
     "C07": (deepen, shared_original, branchy_condaux, later_done, exit_bids),
-    "C08": (shared_original, deepen, exit_bids),
+    "C08": (shared_original, deepen, exit_bids, ready_then_start),
     "C09": (shared_original, later_done, deepen, exit_bids, shared_original),
     "C10": (branchy_condaux, later_done, branchy_condaux),
     "C11": (deepen, later_done),
